@@ -351,7 +351,7 @@ fn main() {
     if a.get(1).map(|s| s.as_str()) == Some("decode-one") {
         install_panic_hook();
         install_log_sink();
-        refcodec::runaway::start_watchdog(a[4].clone(), std::time::Duration::from_secs(10), 1 << 20);
+        refcodec::runaway::start_watchdog_alone(a[4].clone(), std::time::Duration::from_secs(10), 1 << 20);
         let bytes = refcodec::unhex(&a[3]).unwrap();
         let _ = Sut::run(&mut refcodec::runaway::Watched(Child), &a[2], &bytes);
         return;
